@@ -149,6 +149,8 @@ type Sim struct {
 	BasePrefix  string // replaced by "$B" in traced paths (per-process scratch dir)
 	FaultsFired map[string]int
 	Probes      map[string]int
+	MapRaces    []MapRace
+	mapPend     map[uintptr][]*mapPending
 	Interleave  uint64 // hash over (task, call, path) of storage steps
 	Switches    int
 	Deadlock    bool
@@ -548,6 +550,63 @@ func (s *Sim) Lock(site string, try func() bool, lock func()) {
 		s.handoff(t, next)
 	}
 	s.Tracef("t%d lock %s", t.ID, stableOf(site))
+}
+
+// MapRace is two tasks standing at accesses of one shared map at the same instant, at least one of
+// them a write: no synchronisation orders the two accesses (each task reached its access without
+// the other one moving), which the Go runtime answers with an unrecoverable fatal error.
+type MapRace struct {
+	SiteA, SiteB   string
+	WriteA, WriteB bool
+	TaskA, TaskB   int
+	ReqA, ReqB     int64
+}
+
+type mapPending struct {
+	t     *Task
+	site  string
+	write bool
+}
+
+// MapAccess makes an access of a shared map a scheduling point and records collisions.
+func (s *Sim) MapAccess(site string, id uintptr, write bool) {
+	t := s.cur
+	if t == nil {
+		return
+	}
+	for _, p := range s.mapPend[id] {
+		if p.t != t && (p.write || write) {
+			s.Probes["map_access_collision"]++
+			if len(s.MapRaces) < 16 {
+				s.MapRaces = append(s.MapRaces, MapRace{SiteA: p.site, SiteB: site, WriteA: p.write, WriteB: write, TaskA: p.t.ID, TaskB: t.ID, ReqA: p.t.ReqID, ReqB: t.ReqID})
+			}
+			s.Tracef("t%d maprace with t%d %s / %s", t.ID, p.t.ID, stableOf(p.site), stableOf(site))
+		}
+	}
+	if len(s.runnable(t)) == 0 {
+		return
+	}
+	if s.mapPend == nil {
+		s.mapPend = map[uintptr][]*mapPending{}
+	}
+	me := &mapPending{t: t, site: site, write: write}
+	s.mapPend[id] = append(s.mapPend[id], me)
+	defer func() {
+		l := s.mapPend[id]
+		for i, p := range l {
+			if p == me {
+				l = append(l[:i], l[i+1:]...)
+				break
+			}
+		}
+		if len(l) == 0 {
+			delete(s.mapPend, id)
+		} else {
+			s.mapPend[id] = l
+		}
+	}()
+	s.Probes["shared_map_access_yield"]++
+	s.schedPoint(t)
 }
 
 func (s *Sim) Perm(site string, n int) []int {
